@@ -1,12 +1,14 @@
 mod bridge;
 mod world;
 mod sync;
+mod folder;
 use hcommon::parse_cli;
 
 fn main() {
     let cli = parse_cli();
     match cli.domain.as_str() {
         "sync" => sync::run(&cli),
+        "folder" => folder::run(&cli),
         "sched" => sync::run_sched(&cli),
         d => {
             eprintln!("unknown domain {d}");
